@@ -93,6 +93,9 @@ int main() {
   // val / create ignore their arguments
   { tag a(1), b(2); auto v = val(42)(std::move(a), b); CHECK(v == 42 && !a.moved && !b.moved, "val(v) touched an argument or returned " << v); }
   { tag a(1); auto v = create<std::vector<int>>{}(std::move(a)); CHECK(v.empty() && !a.moved, "create<T> touched an argument"); }
+  // construct<T,I> is documented as T{value}: list-initialisation (readme: comma separated numbers -> construct<std::vector<int>>)
+  { auto v = construct<std::vector<int>, 1>{}(3); CHECK(v == std::vector<int>{3}, "construct<vector<int>,1>(3) must be vector{3}, got size " << v.size()); }
+  { auto v = construct<std::vector<int>, 2>{}('x', 5, 7); CHECK(v == std::vector<int>{5}, "construct<vector<int>,2>(_, 5, _) must be vector{5}, got size " << v.size()); }
   static_assert(_e2(1, 2, 3) == 2 && _e1(5) == 5 && _e9(1, 2, 3, 4, 5, 6, 7, 8, 9) == 9, "constexpr element");
   static_assert(val(7)() == 7 && create<int>{}(1, 2) == 0, "constexpr val/create");
   std::cout << "cases=" << cases << " fails=" << fails << "\n";
